@@ -99,6 +99,19 @@ def provenance(space, seen=None):
     return seen
 
 
+def opaque_steps(prov):
+    """Steps of a provenance chain that may hide a restriction the analysis did not see: a sub-selection whose mask was not recorded, a filtered
+    comprehension, a choice between branches, a list axis. When a rule looks for a restriction and does not find it, the answer is a definite 'absent'
+    only if the chain has no such step."""
+    out = []
+    for sp in prov:
+        if sp.kind == 'Sub' and not sp.info.get('mask') and sp.info.get('of') is None:
+            out.append(sp)
+        elif sp.kind in ('Filter', 'Choice', 'ListAx', 'K', 'Ext', 'Diff', 'Range', 'Lit'):
+            out.append(sp)
+    return out
+
+
 def flatten_masks(masks):
     """Atomic conjunct masks of a list of recorded masks: `a & b` contributes a and b (a restriction by a conjunction is a restriction by each conjunct)."""
     out = []
